@@ -26,12 +26,10 @@ git apply patch.diff
 echo "suite with change:    $SUITE"
 echo "demo with change:     $DEMO_WITH"
 echo "demo without change:  $DEMO_WITHOUT"
-# 2. our check against /repo with the patch
-cd /repo && git status --short | grep -q . && { echo "/repo not clean"; exit 2; }
-git apply $OUT/patch.diff || { echo "patch does not apply to /repo"; exit 2; }
-cd /verif && timeout 3000 ./bin/vsym check $P --tier $TIER > $OUT/check_output.txt 2>&1
+# 2. our check against the scratch worktree with the patch applied ($VERIF_REPO; equivalent to applying it to /repo,
+#    and safe while a long background run is reading /repo)
+cd /verif && VERIF_REPO=$WT timeout 3000 ./bin/vsym check $P --tier $TIER > $OUT/check_output.txt 2>&1
 RC=$?
-cd /repo && git checkout -q -- . 
 grep -E "^VIOLATION|^KNOWN|^UNDECIDED|^check " $OUT/check_output.txt | cut -c1-250
 echo "check exit code: $RC"
 cat > $OUT/meta.json <<EOM
